@@ -121,6 +121,18 @@ PROPS = {
                                       "spec/SpecBC7Tables.v: the BC7 partition/anchor tables were transcribed from the pinned commit (no independent copy of the standard is available offline); only their structure is proved (tables_structure)"],
         "assumptions": ["BC6H and the F32 output precision are not modelled (partial)", "U16 output of the BC1-3 family and BC7 is specified as the 8-bit result widened exactly (x257), which is what the format specification's 8-bit decode followed by an exact UNORM conversion gives"],
     },
+    "C04": {
+        "kernel_sample": 120,
+        "harness_timeout": 3000,
+        "rule": "model comparison through dds::decode at the native channel layout and all three precisions (F32 compared bit for bit): the 35 pixel formats - formats of <= 16 bits per pixel over every encoded value (quick: every 5th group of 16), wider ones per channel (every 8/10/11/16-bit field run through its values, f32 channels through specials, rounding boundaries of x*255+0.5 and x*65535+0.5 and random words) in 16x1 and 4x4 images; "
+                "the 7 sub-sampled formats at widths 1..10 x heights 1..3 (odd and even) with random and patterned bytes and every byte value; the 3 bi-planar formats at even sizes 2..8 x 2..6; "
+                "12000 (thorough 120000) hardware f32 operations (+ - * /, int->f32, f32->u8/u16/u32 casts, min/max/clamp, comparisons on specials, subnormals, boundaries, random patterns) against the IEEE model; "
+                "implementation-only oracle: all 65536 half-float codes through R16_FLOAT to U8 and U16 against exact integer arithmetic; distinct = distinct case lines",
+        "trusted_base": BASE_TRUST + ["model/Float.v is an executable IEEE-754 model written for this project (not Flocq); it is tied to the hardware arithmetic the implementation runs on by differential execution only",
+                                      "model/Uncomp.v states the documented bit fields, channel orders and defaults; it is the specification of the wiring and is compared with the code on every run"],
+        "assumptions": ["f32 -> U8/U16 (R32*_FLOAT) and the YUV matrices are modelled and compared but have no nearest-rounding theorem (2^32 / 2^24 input domains)",
+                        "non-native channel layouts are C05's subject"],
+    },
     "C19": {
         "kernel_sample": 150,
         "rule": "systematic sweep of headers: every valid DXGI code x 5 alpha modes, the 27 table FourCCs + 60 boundary/arbitrary u32 FourCCs, every mask row with every one-bit perturbation of its red mask, alpha mask and flags and every bit count; "
